@@ -16,9 +16,10 @@ Record m8 := mk8 {
   clean : bool;                (* since then: no failure, no submission under a running call, no tie *)
   pendc : list nat;            (* wait(cancel=True) issued and not yet returned *)
   ties : nat;
-  inflight : nat               (* how many entries of [burst] had arrived when the running call started *)
+  inflight : nat;              (* how many entries of [burst] had arrived when the running call started *)
+  tend : N                     (* instant of the end of the latest call (0: none yet) *)
 }.
-Definition m8_0 := mk8 None 0 0%N false [] true [] 0 0.
+Definition m8_0 := mk8 None 0 0%N false [] true [] 0 0 0%N.
 
 Definition on_ev8 (T : N) (k k' : trk) (e : event) (x : m8) : m8 :=
   match e with
@@ -27,10 +28,10 @@ Definition on_ev8 (T : N) (k k' : trk) (e : event) (x : m8) : m8 :=
         let tie := anysub x && N.eqb (k_now k) (tlast x + T) in
         mk8 (opened x) (nextc x) (k_now k) true (burst x ++ imm_args kd)
             (clean x && match opened x with None => true | Some _ => false end && negb tie)
-            (pendc x) (ties x + if tie then 1 else 0) (inflight x)
+            (pendc x) (ties x + if tie then 1 else 0) (inflight x) (tend x)
       else x
   | Wait w true =>
-      if wait_accepted k w then mk8 (opened x) (nextc x) (tlast x) (anysub x) (burst x) (clean x) (pendc x ++ [w]) (ties x) (inflight x)
+      if wait_accepted k w then mk8 (opened x) (nextc x) (tlast x) (anysub x) (burst x) (clean x) (pendc x ++ [w]) (ties x) (inflight x) (tend x)
       else x
   | _ => x
   end.
@@ -46,9 +47,12 @@ Definition on_ob8 (T : N) (imm : bool) (k : trk) (o : obs) (x : m8) : option m8 
       (* a clean burst: exactly timeout after its last arrival, all of it *)
       let exact := negb imm || forced || negb (clean x) ||
                    (N.eqb t (tlast x + T) && subset (burst x) set && subset set (burst x)) in
-      if serial && nonempty && Nat.eqb c (nextc x) && not_early && exact
+      (* never later than timeout after the latest submission / the end of the previous call (whichever is
+         later): the quiet period is [timeout], also for the retry of kept arguments after failed calls *)
+      let not_late := negb imm || forced || (t <=? N.max (tlast x) (tend x) + T)%N in
+      if serial && nonempty && Nat.eqb c (nextc x) && not_early && exact && not_late
       then Some (mk8 (Some c) (S (nextc x)) (tlast x) (anysub x) (burst x) (clean x) (pendc x) (ties x)
-                     (length (burst x)))
+                     (length (burst x)) (tend x))
       else None
   | FnEnd c ok set =>
       match opened x with
@@ -59,14 +63,14 @@ Definition on_ob8 (T : N) (imm : bool) (k : trk) (o : obs) (x : m8) : option m8 
                  the buffer is settled again when nothing else is outstanding *)
               let rest := minus (firstn (inflight x) (burst x)) set ++ skipn (inflight x) (burst x) in
               Some (mk8 None (nextc x) (tlast x) (anysub x) rest
-                        (match rest with [] => true | _ => false end) (pendc x) (ties x) 0)
-            else Some (mk8 None (nextc x) (tlast x) (anysub x) (burst x) false (pendc x) (ties x) 0)
+                        (match rest with [] => true | _ => false end) (pendc x) (ties x) 0 (k_now k))
+            else Some (mk8 None (nextc x) (tlast x) (anysub x) (burst x) false (pendc x) (ties x) 0 (k_now k))
           else None
       | None => None
       end
   | WaitRet w _ _ =>
       Some (mk8 (opened x) (nextc x) (tlast x) (anysub x) (burst x) (clean x)
-                (filter (fun v => negb (Nat.eqb v w)) (pendc x)) (ties x) (inflight x))
+                (filter (fun v => negb (Nat.eqb v w)) (pendc x)) (ties x) (inflight x) (tend x))
   | DaemonEnded => Some x
   | Hang => None
   end.
@@ -80,7 +84,7 @@ Definition ok_serial (c : case) : bool :=
   | Case T evs observed => match serial false 0 (concat observed) with Some _ => true | None => false end
   end.
 
-(* part 2: the timed walk (not-early, exact clean burst) *)
+(* part 2: the timed walk (not-early, exact clean burst, not-late) *)
 Definition ok_walk (c : case) : bool :=
   match c with
   | Case T evs observed =>
